@@ -98,6 +98,6 @@ Init == \E i \in 1..Len(Programs) : InitSem(i, <<StrCps("line one"), StrCps("lin
 Next == SemNext
 EmitInv == (EmitOn /\ Final) =>
    Emit([fam |-> "wild", cls |-> Cases[pid].c, key |-> Cases[pid].key, pid |-> pid,
-         toks |-> Compact(Yield(MinParen(P))), stdin |-> <<StrCps("line one"), StrCps("line two")>>, repl |-> repl,
+         toks |-> Compact(Yield(MinParen(P))), tree |-> P, stdin |-> <<StrCps("line one"), StrCps("line two")>>, repl |-> repl,
          status |-> status, why |-> why, out |-> out, diags |-> diags, natlog |-> natlog, steps |-> steps])
 =============================================================================
